@@ -432,6 +432,21 @@ impl<'a, 'p> ser::SerializeStruct for Compound<'a, 'p> {
         }
         r
     }
+    /// A format that keeps a slot for every declared field records a skipped one as absent; the
+    /// medium remembers the call so that "skipped, then written anyway" or "skipped and never
+    /// written" shows in the structure.
+    fn skip_field(&mut self, key: &'static str) -> Result<(), SimError> {
+        self.st.unwind_to(self.depth + 1);
+        self.st.step(WStep::Field)?;
+        self.st.log.str(key);
+        match self.st.stack.last_mut() {
+            Some(Open::Struct { entries, .. }) => {
+                entries.push((key.to_string(), Node::Other("<skipped field>".to_string())));
+                Ok(())
+            }
+            _ => Err(SimError::Medium("skip_field on a non-struct")),
+        }
+    }
     fn end(self) -> Result<(), SimError> {
         self.st.close(self.depth)
     }
